@@ -131,7 +131,11 @@ func castNodesWithTag(node Node, tag Tag, t interface{}) interface{} {
 }
 
 func DeleteNodesWithTag(node Node, tag Tag) {
-	for _, n := range node.Nodes() {
+	// DeleteNode shifts the remaining children down, so the children must be
+	// copied first or the node after each deleted node would be skipped.
+	children := append(Nodes{}, node.Nodes()...)
+
+	for _, n := range children {
 		if n.Tag().Is(tag) {
 			node.DeleteNode(n)
 		}
